@@ -112,6 +112,9 @@ class StubState:
     def __init__(self, vc, tag, parent=None):
         self.vc, self.tag, self.parent = vc, tag, parent
         self._done = self._delays = self._extras = None
+        # ghost facts carried along derivations (G3: with_purpose keeps the handler set, with_handlers the purpose)
+        self.purpose_arg = getattr(parent, 'purpose_arg', None)
+        self.handlers_arg = getattr(parent, 'handlers_arg', None)
 
     def _derive(self, tag, *a):
         s = StubState(self.vc, tag, self)
@@ -119,8 +122,15 @@ class StubState:
         self.vc.emit('state.' + tag, self, s, a)
         return s
 
-    def with_purpose(self, purpose, handlers=None): return self._derive('with_purpose', purpose, handlers)
-    def with_handlers(self, handlers): return self._derive('with_handlers', handlers)
+    def with_purpose(self, purpose, handlers=None):
+        s = self._derive('with_purpose', purpose, handlers)
+        s.purpose_arg = purpose
+        return s
+
+    def with_handlers(self, handlers):
+        s = self._derive('with_handlers', handlers)
+        s.handlers_arg = handlers
+        return s
     def with_outcomes(self, outcomes): return self._derive('with_outcomes', outcomes)
 
     @property
@@ -155,9 +165,9 @@ class StubState:
     def purge(self, body, patch, storage, handlers): self.vc.emit('purge', self, body, patch, storage, handlers)
 
 
-@harness('H1', targets='kopf._core.reactor.processing.process_changing_cause', props=['C02', 'C03', 'C05', 'C14'],
+@harness('H1', targets='kopf._core.reactor.processing.process_changing_cause', props=['C02', 'C03', 'C05', 'C08', 'C14'],
          clauses=['gate', 'closure_iff_done_or_skip', 'store_before_purge', 'essence_is_new', 'flag_only_set',
-                  'returns_delays', 'executes_selected_with_state', 'superseded_handlers_repurposed'],
+                  'returns_delays', 'executes_selected_with_state', 'superseded_handlers_repurposed', 'results_delivered'],
          canaries=['canary.always_closes'],
          trusted=['progression.State (with_purpose/with_handlers/with_outcomes/done/delays/extras/store/purge) by contract G3/G4',
                   'execution.execute_handlers_once by contract X2', 'registry.get_handlers by contract R1'])
@@ -218,6 +228,7 @@ def H1(vc):
 
     def havoc(loc):
         s = StubState(vc, f'repurposed')
+        s.purpose_arg, s.handlers_arg = cr, selected           # by the invariant below
         loop_state.append(s)
         return {'state': s}
 
@@ -245,7 +256,8 @@ def H1(vc):
         'progression.deliver_results': lambda **kw: vc.emit('deliver_results', kw),
         'execution.execute_handlers_once': execute_handlers_once,
     }, loops={1: LoopSpec('for extra_purpose, counters in state.extras.items()',
-                          invariant=lambda loc: isinstance(loc.get('state'), StubState), havoc=havoc, element=element,
+                          invariant=lambda loc: isinstance(loc.get('state'), StubState) and loc['state'].purpose_arg is cr
+                          and loc['state'].handlers_arg is selected, havoc=havoc, element=element,
                           at_backedge=at_back)})
     raised = None
     try:
@@ -267,6 +279,9 @@ def H1(vc):
             kw = ev[1]
             vc.ensure('executes_selected_with_state', kw['handlers'] is selected and kw['cause'] is cause
                       and isinstance(kw['state'], StubState) and kw['lifecycle'] is lifecycle and kw['settings'] is settings)
+            # ... built from storage, purposed for THIS cause, with a state for every selected handler (X2's precondition)
+            vc.ensure('executes_selected_with_state', isinstance(kw['state'], StubState) and kw['state'].purpose_arg is cr
+                      and kw['state'].handlers_arg is selected)
     vc.ensure('executes_selected_with_state', Iff(executed, And(is_handler_reason, selected._truth)))
     if raised is not None:
         # an exception out of the handlers' execution: nothing may be closed or stored after it
@@ -304,6 +319,15 @@ def H1(vc):
     vc.ensure('returns_delays', Eq(vc_len(result), vc_len(post[0].delays)) if executed else vc_len(result) == 0)
     if executed:
         vc.ensure('returns_delays', result is post[0].delays)
+    # a purge BEFORE the execution is only for superseded causes (extras); otherwise the store that follows would
+    # not re-write unchanged records of finished handlers and they would be invoked again
+    if executed:
+        for i, ev in enumerate(tr):
+            if ev[0] == 'purge' and i < i_exec:
+                vc.ensure('prepurge_only_for_superseded', ev[1].extras._truth)
+    # the handlers' results reach the patch (C08: everything accumulated is delivered)
+    dres = [ev[1] for ev in tr if ev[0] == 'deliver_results']
+    vc.ensure('results_delivered', (len(dres) == 1 and dres[0]['outcomes'] is outcomes and dres[0]['patch'] is patch) if executed else not dres)
     vc.canary('canary.always_closes', Eq(memory.fully_handled_once, True))
     return ('return', executed, len(final_purges), len(dstores))
 
